@@ -117,7 +117,7 @@ func genSamTag(t *rapid.T, name string) SamTag {
 	case "f":
 		tag.F = gen.F(gen.Floats().Draw(t, "f"))
 	case "Z":
-		tag.Z = samFieldAlpha.Field(8, 80, 2000).Draw(t, "Z")
+		tag.Z = samFieldAlpha.Field(8, 80, 9000).Draw(t, "Z")
 	case "H":
 		tag.H = gen.B(rapid.SliceOfN(rapid.Byte(), 0, rapid.SampledFrom([]int{6, 6, 6, 200}).Draw(t, "hmax")).Draw(t, "H"))
 	}
@@ -125,7 +125,7 @@ func genSamTag(t *rapid.T, name string) SamTag {
 }
 
 func genSamRec(t *rapid.T) SamRec {
-	field := samFieldAlpha.Field(10, 100, 3000)
+	field := samFieldAlpha.Field(10, 100, 9000)
 	r := SamRec{
 		Qname: field.Draw(t, "qname"), Rname: field.Draw(t, "rname"), Cigar: field.Draw(t, "cigar"),
 		Rnext: field.Draw(t, "rnext"), Seq: field.Draw(t, "seq"), Qual: field.Draw(t, "qual"),
@@ -157,7 +157,7 @@ func genC03(t *rapid.T, thorough bool) C03Case {
 	c := C03Case{Kind: "file"}
 	nh := rapid.SampledFrom([]int{0, 0, 1, 2, 4}).Draw(t, "nheaders")
 	for i := 0; i < nh; i++ {
-		c.Headers = append(c.Headers, append(gen.B("@"), samHeaderAlpha.Field(12, 100, 3000).Draw(t, "header")...))
+		c.Headers = append(c.Headers, append(gen.B("@"), samHeaderAlpha.Field(12, 100, 9000).Draw(t, "header")...))
 	}
 	nr := rapid.SampledFrom([]int{0, 1, 1, 2, 3, 6}).Draw(t, "nrecs")
 	for i := 0; i < nr; i++ {
@@ -390,6 +390,7 @@ func checkC03(c C03Case, o *Obs) error {
 		o.ClassIf(bytes.Contains(h, []byte("\t")), "header contains TAB")
 	}
 	hostile := false
+	var keeper marshalKeeper
 	var file bytes.Buffer
 	for _, h := range c.Headers {
 		file.Write(h)
@@ -428,6 +429,11 @@ func checkC03(c C03Case, o *Obs) error {
 			return fmt.Errorf("record %d: text %q read back differently: %v", i, text, err)
 		}
 		file.Write(text)
+		keeper.keep(fmt.Sprintf("record %d", i), text)
+	}
+	baseSamRec.toSAM().MarshalText()
+	if err := keeper.verify(); err != nil {
+		return err
 	}
 	o.ClassIf(hostile, "hostile byte in a field")
 	o.NT = (len(c.Recs) >= 1 && (hostile || anyTags(c.Recs))) || (len(c.Headers) >= 1 && len(c.Recs) >= 2)
@@ -556,6 +562,19 @@ func exhaustiveC03(thorough bool, emit func(C03Case) bool) {
 					return
 				}
 			}
+		}
+	}
+	// long reads: lines beyond bufio's 4096-byte buffer and beyond 64 KiB
+	for _, n := range []int{4000, 4096, 9000, 40000, 70000, 200000} {
+		r := baseSamRec
+		r.Seq = gen.B(bytes.Repeat([]byte("ACGT"), n/4))
+		r.Qual = gen.B(bytes.Repeat([]byte("I\"#~"), n/4))
+		r.Tags = []SamTag{{Name: "ZL", Type: "Z", Z: gen.B(bytes.Repeat([]byte("z"), n/2))}}
+		second := baseSamRec
+		second.Qname = gen.B("after-the-long-one")
+		hdr := append(gen.B("@CO\t"), bytes.Repeat([]byte("h"), n)...)
+		if !emit(C03Case{Kind: "file", Headers: []gen.B{hdr}, Recs: []SamRec{r, second}}) {
+			return
 		}
 	}
 	// every printable A value, boundary ints and floats
